@@ -492,6 +492,39 @@ static Type infer_array_element_type(ASTNode *array_expr, Environment *env) {
 }
 
 /* ============================================================================
+ * HELPER: Are two expressions the same expression without calls?
+ * (variables, fields, tuple elements, literals and operators on them: evaluating
+ * them twice gives the same value and has no effect)
+ * ============================================================================ */
+
+static bool same_callfree_expr(ASTNode *a, ASTNode *b) {
+    if (!a || !b || a->type != b->type) return false;
+
+    switch (a->type) {
+        case AST_NUMBER:
+            return a->as.number == b->as.number;
+        case AST_BOOL:
+            return a->as.bool_val == b->as.bool_val;
+        case AST_IDENTIFIER:
+            return strcmp(a->as.identifier, b->as.identifier) == 0;
+        case AST_FIELD_ACCESS:
+            return strcmp(a->as.field_access.field_name, b->as.field_access.field_name) == 0 &&
+                   same_callfree_expr(a->as.field_access.object, b->as.field_access.object);
+        case AST_TUPLE_INDEX:
+            return a->as.tuple_index.index == b->as.tuple_index.index &&
+                   same_callfree_expr(a->as.tuple_index.tuple, b->as.tuple_index.tuple);
+        case AST_PREFIX_OP:
+            if (a->as.prefix_op.op != b->as.prefix_op.op || a->as.prefix_op.arg_count != b->as.prefix_op.arg_count) return false;
+            for (int i = 0; i < a->as.prefix_op.arg_count; i++) {
+                if (!same_callfree_expr(a->as.prefix_op.args[i], b->as.prefix_op.args[i])) return false;
+            }
+            return true;
+        default:
+            return false;
+    }
+}
+
+/* ============================================================================
  * HELPER: Serialize expression AST to human-readable string (for error messages)
  * Uses static buffer - NOT thread-safe, but sufficient for single-threaded compiler
  * ============================================================================ */
@@ -1048,6 +1081,12 @@ static void build_expr(WorkList *list, ASTNode *expr, Environment *env) {
                     emit_literal(list, ", ");
                     build_expr(list, expr->as.prefix_op.args[1], env);
                     emit_literal(list, ")");
+                } else if ((op == TOKEN_EQ || op == TOKEN_NE || op == TOKEN_LT || op == TOKEN_LE || op == TOKEN_GT || op == TOKEN_GE) &&
+                           (op_t1 == TYPE_INT || op_t1 == TYPE_U8 || op_t1 == TYPE_BOOL || op_t1 == TYPE_ENUM) &&
+                           same_callfree_expr(expr->as.prefix_op.args[0], expr->as.prefix_op.args[1])) {
+                    /* `(> x x)`: cc rejects a self-comparison (-Werror=tautological-compare); its value is known
+                     * (not for floats: NaN, which cc lets pass) */
+                    emit_literal(list, (op == TOKEN_EQ || op == TOKEN_LE || op == TOKEN_GE) ? "true" : "false");
                 } else {
                     /* Regular binary operator */
                     bool needs_parens = (op == TOKEN_PLUS || op == TOKEN_MINUS || 
